@@ -1216,12 +1216,24 @@ func (fx *FnExec) evalBinary(x *ast.BinaryExpr, env *evalEnv) (cval, error) {
 		fx.strExt(a, b, env)
 		return boolr(not(eq(a.S, b.S)))
 	case token.LSS:
+		if a.Sort == "Str" && b.Sort == "Str" {
+			return boolr("(str_lt " + a.S + " " + b.S + ")") // the order the code's < on strings is given
+		}
 		return boolr("(< " + a.S + " " + b.S + ")")
 	case token.LEQ:
+		if a.Sort == "Str" && b.Sort == "Str" {
+			return boolr("(not (str_lt " + b.S + " " + a.S + "))")
+		}
 		return boolr("(<= " + a.S + " " + b.S + ")")
 	case token.GTR:
+		if a.Sort == "Str" && b.Sort == "Str" {
+			return boolr("(str_lt " + b.S + " " + a.S + ")")
+		}
 		return boolr("(> " + a.S + " " + b.S + ")")
 	case token.GEQ:
+		if a.Sort == "Str" && b.Sort == "Str" {
+			return boolr("(not (str_lt " + a.S + " " + b.S + "))")
+		}
 		return boolr("(>= " + a.S + " " + b.S + ")")
 	case token.ADD:
 		return cval{S: "(+ " + a.S + " " + b.S + ")", Sort: "Int", T: a.T}, nil
@@ -2015,6 +2027,12 @@ func mergeContract(dst, grp *Contract) {
 			dst.GhostSet = map[string]*CExpr{}
 		}
 		dst.GhostSet[k] = v
+		if grp.GhostAssign[k] {
+			if dst.GhostAssign == nil {
+				dst.GhostAssign = map[string]bool{}
+			}
+			dst.GhostAssign[k] = true
+		}
 	}
 	if grp.Fresh {
 		dst.Fresh = true
